@@ -44,12 +44,64 @@ class _CompoundLatency(LatencyDistribution):
         return Duration.from_seconds(base_dur.to_seconds() + extra_dur.to_seconds())
 
 
+def _without_layer(dist: LatencyDistribution, extra: LatencyDistribution) -> LatencyDistribution:
+    """Return ``dist`` with the ``_CompoundLatency`` layer that added ``extra`` removed.
+
+    Overlapping ``InjectLatency`` windows on one link stack their layers on top
+    of whatever latency the link has when they start; a window that ends takes
+    out its own layer only, wherever it sits in the stack.
+    """
+    if not isinstance(dist, _CompoundLatency):
+        return dist
+    if dist._extra is extra:
+        return dist._base
+    return _CompoundLatency(_without_layer(dist._base, extra), dist._extra)
+
+
+class _InjectedLoss:
+    """Packet loss contributions currently injected on one link.
+
+    Shared by every ``InjectPacketLoss`` window on the link: the configured rate
+    is remembered when the first window starts, the effective rate is
+    ``min(1, configured + sum of active contributions)``, and the configured
+    rate comes back when the last window ends.
+    """
+
+    __slots__ = ("base", "extras")
+
+    def __init__(self, base: float) -> None:
+        self.base = base
+        self.extras: list[tuple[object, float]] = []
+
+    def effective(self) -> float:
+        return min(1.0, self.base + sum(rate for _, rate in self.extras))
+
+
+def _add_loss(link, token: object, rate: float) -> None:
+    state = getattr(link, "_injected_loss", None)
+    if state is None:
+        state = _InjectedLoss(link.packet_loss_rate)
+        link._injected_loss = state
+    state.extras.append((token, rate))
+    link.packet_loss_rate = state.effective()
+
+
+def _remove_loss(link, token: object) -> None:
+    state = getattr(link, "_injected_loss", None)
+    if state is None:
+        return
+    state.extras = [(t, r) for t, r in state.extras if t is not token]
+    link.packet_loss_rate = state.effective()
+    if not state.extras:
+        link._injected_loss = None
+
+
 @dataclass(frozen=True)
 class InjectLatency:
     """Add extra latency to a network link for a time window.
 
-    At ``start``, replaces the link's latency with a compound distribution
-    that adds ``extra_ms`` milliseconds. At ``end``, restores the original.
+    At ``start``, layers ``extra_ms`` milliseconds on top of the link's current
+    latency. At ``end``, removes that layer again. Overlapping windows add up.
 
     Attributes:
         source_name: Source entity name for the link.
@@ -75,13 +127,14 @@ class InjectLatency:
         if link is None:
             raise ValueError(f"No link found: {self.source_name} -> {self.dest_name}")
 
-        original_latency = link.latency
         extra_dist = ConstantLatency(self.extra_ms / 1000.0)
         src = self.source_name
         dst = self.dest_name
 
         def activate(e: Event) -> None:
-            link.latency = _CompoundLatency(original_latency, extra_dist)
+            # Layer on top of the current latency (which may already carry the
+            # layers of other active windows), not on a value captured earlier.
+            link.latency = _CompoundLatency(link.latency, extra_dist)
             logger.info(
                 "[FaultInjection] Injected +%sms latency on %s -> %s at %s",
                 self.extra_ms,
@@ -91,7 +144,7 @@ class InjectLatency:
             )
 
         def deactivate(e: Event) -> None:
-            link.latency = original_latency
+            link.latency = _without_layer(link.latency, extra_dist)
             logger.info(
                 "[FaultInjection] Restored latency on %s -> %s at %s",
                 src,
@@ -127,7 +180,8 @@ class InjectPacketLoss:
     """Inject additional packet loss on a link for a time window.
 
     At ``start``, increases the link's ``packet_loss_rate``. At ``end``,
-    restores the original rate.
+    takes its contribution back out. Overlapping windows add up (capped at 1),
+    and the configured rate returns when the last one ends.
 
     Attributes:
         source_name: Source entity name for the link.
@@ -151,13 +205,13 @@ class InjectPacketLoss:
         if link is None:
             raise ValueError(f"No link found: {self.source_name} -> {self.dest_name}")
 
-        original_loss = link.packet_loss_rate
         src = self.source_name
         dst = self.dest_name
         extra = self.loss_rate
+        token = object()  # identifies this window's contribution on the link
 
         def activate(e: Event) -> None:
-            link.packet_loss_rate = min(1.0, original_loss + extra)
+            _add_loss(link, token, extra)
             logger.info(
                 "[FaultInjection] Injected +%.1f%% packet loss on %s -> %s at %s",
                 extra * 100,
@@ -167,7 +221,7 @@ class InjectPacketLoss:
             )
 
         def deactivate(e: Event) -> None:
-            link.packet_loss_rate = original_loss
+            _remove_loss(link, token)
             logger.info(
                 "[FaultInjection] Restored packet loss on %s -> %s at %s",
                 src,
